@@ -191,7 +191,7 @@ impl<'a> G<'a> {
 
     fn from_iter_stub(&mut self) {
         let n = self.n;
-        let mode = if self.faulty { self.r.weighted(&[2, 3, 2, 3]) as u32 } else { 0 };
+        let mode = if self.faulty { self.r.weighted(&[2, 3, 2, 3, 2]) as u32 } else { 0 };
         let j = self.r.below(n as u32 + 2);
         let hint = if self.faulty && self.r.chance(1, 3) { self.r.below(4) } else { 0 };
         let f = if mode != 3 { self.fault(n * self.w) } else { 0 };
@@ -754,7 +754,7 @@ pub fn gen_plan(seed: u64, run: u64) -> Plan {
     }
     let ops = g.ops;
     // element-shape swarm dimension (drawn last so that the plans of earlier versions keep their shape)
-    let elem = if is_mat { if rng.chance(1, 16) { 3 } else { 0 } } else { [0, 0, 0, 0, 0, 0, 0, 0, 0, 3, 1, 1, 1, 1, 2, 2][rng.below(16) as usize] };
+    let elem = if is_mat { [0, 0, 0, 0, 0, 0, 0, 0, 0, 0, 3, 1, 1, 1, 2, 2][rng.below(16) as usize] } else { [0, 0, 0, 0, 0, 0, 0, 0, 0, 3, 1, 1, 1, 1, 2, 2][rng.below(16) as usize] };
     // a quarter of the runs give every element the same payload value, so that comparisons
     // between iterators in different cursor states do not stop at the first pair
     let uniform = rng.chance(1, 4);
